@@ -261,7 +261,7 @@ def schemaNoDatabaseByFlag (existsFlag : Bool) (n : SchemaNode) : Bool := !(if e
     talks to DuckDB directly; `cursor.description` runs `_execute` on a throw-away cursor. -/
 inductive ConnUse (Q : Type)
   | viaExecute (ss : List (Stmt Q))
-  | writePandas
+  | writePandas (q : Q)            -- the INSERT of the dataframe, sent to DuckDB directly
   | description (c : Call Q)
 
 /-- the first failure of a run of executes (or success), and the world afterwards -/
@@ -275,7 +275,13 @@ def runExecutes {D Q} (eng : D → Q → Except DuckExc D) (w : World D) : List 
 
 def ConnUse.run {D Q} (eng : D → Q → Except DuckExc D) (w : World D) : ConnUse Q → World D × Outcome
   | .viaExecute ss => runExecutes eng w ss
-  | .writePandas => if w.closed then (w, .database c250002) else (w, .ok)      -- open: the insert itself is C01's subject
+  | .writePandas q =>
+    if w.closed then (w, .database c250002)
+    else match eng w.duck q with
+      | .ok d => ({ w with duck := d }, .ok)
+      | .error .binder => (w, .programming c2043)        -- pandas_tools.write_pandas translates like `_execute` does (the `fix:`)
+      | .error .catalog => (w, .programming c2003)
+      | .error e => (w, .rawDuck e)
   | .description c => (w, descriptionOutcome eng w c)
 
 end Fs.Err
